@@ -73,7 +73,14 @@ SeedsD == { Seed("sl-1abc-aaaaa-bbbbb-ccccc-ddddd-eeeee-fffff-ggggg-hhhhh-iiiii-
             Seed("en-u-a01-a02-a03-a04-a05-a06-a07-a08-a09-a10-a11-a12"),
             Seed("en-u-ca-x1x-cb-x1x-cc-x1x-cd-x1x-ce-x1x-cf-x1x-cg-x1x-ch-x1x-ci-x1x-cj-x1x"),
             Seed("en-t-a0-x1x-b0-x1x-c0-x1x-d0-x1x-e0-x1x-f0-x1x-g0-x1x-h0-x1x-i0-x1x-j0-x1x") }
-Seeds == IF SeedSet = "A" THEN SeedsA ELSE IF SeedSet = "B" THEN SeedsB
+(* emptiness: an extension with nothing in it (in front of another one, or at the end), leading / trailing / doubled     *)
+(* separators.  C03 leaves the verdict on such texts to the implementation, C09 still wants the two spellings / the two   *)
+(* orders of one text to fare alike                                                                                       *)
+SeedsE == { Seed("en-u-t-es"), Seed("en-t-u-foo"), Seed("en-t-es-u"), Seed("en-u-foo-t"), Seed("en-u-t-x-a"),
+            Seed("en-US-"), Seed("en-"), Seed("-en"), Seed("en-US--valencia"), Seed("ca-ES-valencia-"),
+            Seed("en-u-ca-"), Seed("en-t-h0-"), Seed("en-x-"), Seed("en-u-t"), Seed("en-t-u"),
+            Seed("en-u-ca-t-h0"), Seed("en-valencia--valencia") }
+Seeds == IF SeedSet = "A" THEN SeedsA ELSE IF SeedSet = "B" THEN SeedsB ELSE IF SeedSet = "E" THEN SeedsE
          ELSE IF SeedSet = "C" THEN SeedsC ELSE IF SeedSet = "D" THEN SeedsD ELSE SeedsA \cup SeedsB
 
 Init == \E sd \in Seeds : toks = sd.toks /\ seps = sd.seps /\ n = 0
